@@ -7,6 +7,7 @@ from props.flowgen import Gen, Tpl
 from props.flowprop import SEP, go_model, parse_dgram, subst_floats
 from props.common import hx, rand_addr
 from props import c08 as v5mod
+from props import sfgen
 
 BOUNDARY16 = [0, 1, 2, 3, 4, 5, 8, 255, 256, 0x7fff, 0x8000, 0xfffe, 0xffff]
 
@@ -67,7 +68,7 @@ def adversarial_tpl(g, rng, tid):
 
 class FlowRobust:
     """shared by C01 and C02"""
-    protos = ["ipfix", "nf9", "nf5"]
+    protos = ["ipfix", "nf9", "nf5", "sflow"]
 
     def __init__(self, pid):
         self.id = pid
@@ -117,6 +118,37 @@ class FlowRobust:
             line = "nf5 %s %s" % (a, hx(mutate(rng, bytes.fromhex(p[1:]))))
         return line
 
+    def sflow_case(self, rng):
+        import struct
+        k = rng.random()
+        filt = rng.choice(["", "", "1 ", "2 ", "1 2 "])
+        if k < 0.25:
+            # directed: one flow sample with one record whose declared length / header length is hostile
+            kind = rng.choice(["router", "vlan", "hdrlen", "counts"])
+            if kind == "router":
+                l = rng.choice(list(range(0, 33)) + [0xffffffff, 0x7fffffff, 1000])
+                body = bytes(rng.randrange(256) for _ in range(rng.choice([0, 4, 8, 12, 20, 28, 40])))
+                rec = struct.pack(">II", 1002, l) + body
+            elif kind == "vlan":
+                hl = rng.choice([12, 13, 14, 15, 16, 17, 18, 19, 22])
+                hdr = bytes(12) + b"\x81\x00" + bytes(rng.randrange(256) for _ in range(40))
+                hdr = hdr[:hl]
+                rec = struct.pack(">II", 1, 16 + len(hdr)) + struct.pack(">IIII", 1, 100, 0, hl) + hdr + bytes((4 - hl % 4) % 4)
+            elif kind == "hdrlen":
+                hl = rng.choice([0, 1, 1499, 1500, 1501, 0xffffffff, 0x80000000, 65536])
+                rec = struct.pack(">II", 1, 16) + struct.pack(">IIII", rng.choice([1, 11, 12, 5]), 100, 0, hl) + bytes(rng.randrange(256) for _ in range(rng.choice([0, 4, 60])))
+            else:
+                rec = b""
+            nrec = 1 if kind != "counts" else rng.choice([0, 2, 0xffffffff, 0x10000])
+            fs = struct.pack(">IIIIIIII", 1, 0, 1, 1, 0, 1, 2, nrec) + rec
+            ns = 1 if kind != "counts" else rng.choice([1, 2, 0xffffffff])
+            p = struct.pack(">II", 5, 1) + bytes([10, 0, 0, 1]) + struct.pack(">IIII", 0, 1, 2, ns) + struct.pack(">II", 1, len(fs)) + fs
+        else:
+            p, _, _ = sfgen.gen_datagram(rng)
+            for _ in range(rng.choice([0, 1, 1, 2])):
+                p = mutate(rng, p)
+        return "sflow %s%s" % (filt, hx(p))
+
     def cases(self, tier, rng, budget):
         gens = {p: Gen(p, go_model(), rng) for p in ("ipfix", "nf9")}
         out = []
@@ -124,6 +156,8 @@ class FlowRobust:
             proto = self.protos[i % len(self.protos)]
             if proto == "nf5":
                 out.append(self.v5_case(rng))
+            elif proto == "sflow":
+                out.append(self.sflow_case(rng))
             elif proto in gens:
                 out.append(self.flow_case(proto, gens[proto], rng))
         return out
@@ -149,6 +183,8 @@ class FlowRobust:
 
     def classify(self, line, impl, model):
         proto = line.split(" ", 1)[0]
+        if proto == "sflow":
+            return ("sflow:%s" % ("published" if model.startswith("{") else model[:8]), line)
         kinds = [o.split(" ")[0] for o in model.split(SEP)]
         n = sum(parse_dgram(o).get("n", 0) for o in model.split(SEP)) if proto != "nf5" else 0
         cls = "%s:%s:%s" % (proto, "+".join(k[:4] for k in kinds), "recs" if n else "norecs")
@@ -161,12 +197,12 @@ class FlowRobust:
         return ("per protocol (round robin over %s): histories that first install adversarial templates (zero fields, zero-length "
                 "fields, 65535-length fixed fields, scope > field count, elements missing from the model), then data sets with matching, "
                 "random or boundary lengths and reserved/unknown set ids, each datagram further mutated (16/32-bit length fields set to "
-                "boundary values, truncation, byte flips, insertion, deletion, duplication); v5: the C08 stream plus the same mutations. "
+                "boundary values, truncation, byte flips, insertion, deletion, duplication); v5: the C08 stream plus the same mutations; sFlow: specification-built datagrams plus the same mutations and directed hostile record lengths (extended router 0..32 and 2^32-1, 802.1Q headers of 12..22 octets, header lengths around 1500 and 2^31, record/sample counts up to 2^32-1). "
                 "non-trivial = every distinct history; the distribution histogram lists outcome classes per protocol" % ", ".join(self.protos))
 
     def trusted_base(self):
         return ["Coq 8.16.1 kernel",
-                "hand models coq/Model/{Reader,Flow,Cache,Ipfix,Nf9,Nf5,MarshalFlow}.v tied by this correspondence run (outcome class and decoded content)",
+                "hand models coq/Model/{Reader,Flow,Cache,Ipfix,Nf9,Nf5,MarshalFlow,Sflow,Packet}.v tied by this correspondence run (outcome class and decoded content)",
                 "Go harness runs each datagram under recover() and a 3 s watchdog",
                 "extraction (ExtrOcamlBasic) + ocaml/driver.ml"]
 
